@@ -24,10 +24,10 @@ OPS = ["left", "left", "inner", "semi", "anti", "full", "full"]
 
 
 MIXED_PAIRS = [("i", "f"), ("f", "i"), ("i", "i8"), ("i8", "i"), ("i", "u8"), ("u8", "i"), ("f", "f32"), ("f32", "f"),
-               ("i32", "i"), ("f", "i8")]
+               ("i32", "i"), ("f", "i8"), ("b", "i"), ("i", "b"), ("b", "f"), ("u8", "b")]      # True == 1, False == 0
 MIXED_POOL = {"i": [0, 1, 2, 3, 300, -1, 44, 255, 2**31 + 1], "f": [gen.NAN, 0.0, 1.0, 1.5, 2.0, 2.5, 300.0, 0.1, -1.0],
               "i8": [0, 1, 2, 3, 44, -1], "u8": [0, 1, 2, 3, 44, 255], "f32": [gen.NAN, 0.0, 1.0, 1.5, 2.0, 0.1],
-              "i32": [0, 1, 2, 3, -2**31 + 1, 300]}
+              "i32": [0, 1, 2, 3, -2**31 + 1, 300], "b": [True, False]}
 
 
 @st.composite
